@@ -22,6 +22,7 @@
 EXTENDS Integers, Sequences, BigNat
 
 Zeros(n) == [i \in 1..n |-> 0]
+Rev(s) == [i \in 1..Len(s) |-> s[Len(s) + 1 - i]]
 
 RECURSIVE StripLZ(_)
 StripLZ(s) == IF s # <<>> /\ s[1] = 0 THEN StripLZ(Tail(s)) ELSE s
@@ -48,13 +49,52 @@ Parse(l, S) ==
 ToErc20(n, d)  == IF n.d = <<>> THEN ZeroNum ELSE Parse(FormatAmount(n), d)
 ToLedger(n, d) == IF n.d = <<>> THEN ZeroNum ELSE Parse(Format(n, d), 18)
 
+(* ------------------------------------------------------- string grammar *)
+(* What a string of characters (code points) denotes when it is read as a decimal amount:
+     [sign] digits [ "." digits ] [ ("e" | "E") [sign] digits ]      with at least one mantissa digit
+   Leading zeros are insignificant, "+" is a sign, the integer or the fraction part may be empty,
+   an exponent shifts the decimal point.  Anything else (radix prefixes 0x 0b 0o, digit separators,
+   binary exponents "p", blanks, words like Inf, digits outside ASCII) does not denote an amount. *)
+IsDigit(ch) == ch >= 48 /\ ch <= 57
+RECURSIVE DigitsFrom(_, _)
+(* the maximal run of digits of cs starting at position p *)
+DigitsFrom(cs, p) == IF p <= Len(cs) /\ IsDigit(cs[p]) THEN <<cs[p] - 48>> \o DigitsFrom(cs, p + 1) ELSE <<>>
+NotDecimal == [ok |-> FALSE]
+ReadLiteral(cs) ==
+  LET hasSign == Len(cs) >= 1 /\ cs[1] \in {43, 45}
+      neg == hasSign /\ cs[1] = 45
+      p1 == IF hasSign THEN 2 ELSE 1
+      ip == DigitsFrom(cs, p1)
+      p2 == p1 + Len(ip)
+      hasDot == p2 <= Len(cs) /\ cs[p2] = 46
+      fp == IF hasDot THEN DigitsFrom(cs, p2 + 1) ELSE <<>>
+      p3 == IF hasDot THEN p2 + 1 + Len(fp) ELSE p2
+      hasExp == p3 <= Len(cs) /\ cs[p3] \in {101, 69}
+      eSign == hasExp /\ p3 + 1 <= Len(cs) /\ cs[p3 + 1] \in {43, 45}
+      eNeg == eSign /\ cs[p3 + 1] = 45
+      p4 == IF ~hasExp THEN p3 ELSE IF eSign THEN p3 + 2 ELSE p3 + 1
+      ed == IF hasExp THEN DigitsFrom(cs, p4) ELSE <<>>
+      p5 == p4 + Len(ed)
+  IN  IF p5 # Len(cs) + 1 \/ (ip = <<>> /\ fp = <<>>) \/ (hasExp /\ (ed = <<>> \/ Len(ed) > 3)) THEN NotDecimal
+      ELSE [ok |-> TRUE, neg |-> neg, plus |-> hasSign /\ ~neg, int |-> ip, frac |-> fp, dot |-> hasDot,
+            hasExp |-> hasExp, exp |-> (IF eNeg THEN 0 - ToNat(Rev(ed), 10) ELSE ToNat(Rev(ed), 10))]
+
+(* the amount (scale 18) a literal with exponent denotes; inScope = FALSE when it has more than 18
+   fractional digits or more than 78 integer digits (outside the statement) *)
+Denoted(l) ==
+  LET d == l.int \o l.frac
+      e18 == 18 - Len(l.frac) + l.exp
+      cut == IF e18 >= 0 THEN <<>> ELSE SubSeq(d, Max(1, Len(d) + e18 + 1), Len(d))
+      kept == IF e18 >= 0 THEN d \o Zeros(e18) ELSE SubSeq(d, 1, Max(0, Len(d) + e18))
+      n == Num(l.neg, kept)
+  IN  [n |-> n, inScope |-> StripLZ(cut) = <<>> /\ (e18 >= 0 \/ Len(d) + e18 >= 0) /\ Len(n.d) <= 96]
+
 (* ------------------------------------------------- rendering and bytes *)
 DigitChar == <<"0", "1", "2", "3", "4", "5", "6", "7", "8", "9">>
 RECURSIVE DigitsStr(_)
 DigitsStr(ds) == IF ds = <<>> THEN "" ELSE DigitChar[ds[1] + 1] \o DigitsStr(Tail(ds))
 Render(l) == (IF l.neg THEN "-" ELSE "") \o DigitsStr(l.int) \o (IF l.dot THEN "." ELSE "") \o DigitsStr(l.frac)
 
-Rev(s) == [i \in 1..Len(s) |-> s[Len(s) + 1 - i]]
 (* big-endian magnitude bytes (as big.Int.Bytes()) <-> digits *)
 BytesOfDigits(d) == Rev(Convert(Rev(d), 10, 256))
 DigitsOfBytes(b) == Rev(Convert(Rev(b), 256, 10))
